@@ -29,9 +29,11 @@ var c13Bundles = [][]c13File{
 	// 5: two files, each with its own error (only the accept/reject decision is order independent)
 	{{"one.soy", "{namespace a}\n/** @param unused */\n{template .t}\nx\n{/template}\n"},
 		{"two.soy", "{namespace b}\n/** */\n{template .u}\n{$undeclared}\n{/template}\n"}},
+	// 7 (see below): header params without a soydoc comment, optional param, private template
 	// 6: the same template name in two files
 	{{"one.soy", "{namespace a}\n/** */\n{template .t}\nfirst\n{/template}\n"},
 		{"two.soy", "{namespace a}\n/** */\n{template .t}\nsecond\n{/template}\n"}},
+	{{"one.soy", "{namespace a}\n{template .t}\n{@param title: string}\n{@param? sub: string}\n<h1>{$title}</h1>{if $sub}{$sub}{/if}{call .p}{param q: $title /}{/call}\n{/template}\n{template .p private=\"true\"}\n{@param q: string}\n({$q})\n{/template}\n"}},
 }
 
 var c13Globals = data.Map{"G_MAP": data.Map{"k2": data.Int(2), "k1": data.String("v")}, "G_LIST": data.List{data.Int(1), data.String("s")}, "G_STR": data.String("g")}
@@ -70,6 +72,11 @@ func c13Run(t, perm int) (decision, errText, rest string) {
 	}
 	b.AddGlobalsMap(c13Globals)
 	reg, err := b.Compile()
+	// compiling the same bundle again must give the same decision and error
+	_, err2 := b.Compile()
+	if (err == nil) != (err2 == nil) || (err != nil && err.Error() != err2.Error()) {
+		return "unstable", "second Compile of the same bundle differs from the first", ""
+	}
 	if err != nil {
 		return "reject", err.Error(), ""
 	}
@@ -100,7 +107,7 @@ func c13Run(t, perm int) (decision, errText, rest string) {
 		var buf bytes.Buffer
 		rerr := tofu.Render(&buf, name, nil)
 		_ = rerr
-		rerr2 := tofu.NewRenderer(name).Execute(&buf, data.Map{"x": data.Map{"x": data.String("<")}, "m": data.Map{"x": data.Int(1), "y": data.Map{"x": data.Int(2)}}})
+		rerr2 := tofu.NewRenderer(name).Execute(&buf, data.Map{"x": data.Map{"x": data.String("<")}, "m": data.Map{"x": data.Int(1), "y": data.Map{"x": data.Int(2)}}, "title": data.String("T")})
 		out = append(out, ("@" + name + "=")...)
 		out = append(out, buf.Bytes()...)
 		if rerr2 != nil {
@@ -120,6 +127,7 @@ func H_bundle(t, perm int) {
 	verifMapOrder("")
 	verifObserve("decision", d0)
 	verifObserve("err", e0)
+	verifAssert(d0 != "unstable" && d1 != "unstable", "C13: compiling the same bundle twice gives different results")
 	verifAssert(d0 == d1, "C13: accept/reject decision depends on iteration or file order")
 	multi := t == 5 || t == 6 // several independent errors / duplicate names: which is reported first may depend on file order
 	if !(multi && perm != 0) {
